@@ -79,6 +79,14 @@ namespace OP2Utility
 		stream.Read(mapHeader);
 		CheckMinVersionTag(mapHeader.versionTag);
 
+		// Width is stored as a base 2 logarithm and must shift into 32 bits, as must the total tile count
+		if (mapHeader.lgWidthInTiles >= 32) {
+			throw std::runtime_error("Map width in tiles is too large. Base 2 logarithm of width reads " + std::to_string(mapHeader.lgWidthInTiles));
+		}
+		if ((static_cast<uint64_t>(mapHeader.heightInTiles) << mapHeader.lgWidthInTiles) > UINT32_MAX) {
+			throw std::runtime_error("Map dimensions are too large. The tile count must fit in 32 bits");
+		}
+
 		Map map;
 		map.versionTag = mapHeader.versionTag;
 		map.isSavedGame = mapHeader.bSavedGame;
